@@ -8,6 +8,7 @@ step (`blobs` stream) vs the model. Oracle: integrity scanner on the real tree +
 re-read through a cache-less twin backend.
 """
 import json
+import os
 import sys
 
 import common
@@ -57,6 +58,35 @@ class Held:
             if got != sw.canon_tag(B):
                 fails.append(dict(clause="memento-reads-own-bytes", memento=sw.World.mid_of(m), expected=B, got=got,
                                   content_key=str(m.content_key)))
+                break
+        # ... and so does the memento a reader decodes from the store for the same call (whichever memento is the call's
+        # current one: it carries the content key its own bytes were stored under)
+        by_mid = {sw.World.mid_of(m): (m, B) for (m, B) in w.created}
+        seen_calls = set()
+        for (m, B, _) in self.items[-12:]:
+            try:
+                frh = m.invocation_metadata.fn_reference_with_args.fn_reference_with_arg_hash()
+                ck = (frh.fn_reference.qualified_name, frh.arg_hash)
+                if ck in seen_calls:
+                    continue
+                seen_calls.add(ck)
+                mm = twin.get_mementos([frh])[0]
+                if mm is None:
+                    continue
+                m0, B0 = by_mid.get(sw.World.mid_of(mm), (None, None))
+                if m0 is None:
+                    continue
+                if mm.content_key != m0.content_key:
+                    fails.append(dict(clause="memento-reads-own-bytes", memento=sw.World.mid_of(mm), note="decoded memento carries another content key",
+                                      stored=str(m0.content_key), decoded=str(mm.content_key)))
+                    break
+                got = sw.tag_of(twin.read_result(mm))
+                if got != sw.canon_tag(B0):
+                    fails.append(dict(clause="memento-reads-own-bytes", memento=sw.World.mid_of(mm), note="read through the decoded memento",
+                                      expected=B0, got=got))
+                    break
+            except Exception as e:
+                fails.append(dict(clause="memento-reads-own-bytes", note="reading through the decoded memento raised", error=repr(e)[:200]))
                 break
         return fails
 
@@ -110,7 +140,106 @@ CORPUS = [
 ]
 
 
+MERGED_SRC = """from twosigma.memento import memento_function
+from twosigma.memento.partition import InMemoryPartition
+
+
+def payload(x):
+    return b"merged-%d-" % x + bytes(range(200))
+
+
+@memento_function(cluster="c7b", version="1")
+def base(x):
+    return InMemoryPartition({"a": payload(x), "b": [x, "b"]})
+
+
+@memento_function(cluster="c7a", version="1")
+def plain_a(x):
+    return payload(x)
+
+
+@memento_function(cluster="c7a", version="1")
+def same_store_base(x):
+    return InMemoryPartition({"a": payload(x), "b": [x, "b"]})
+
+
+@memento_function(cluster="c7a", version="1")
+def merged_same(x):
+    p = InMemoryPartition({"c": [x, "c"]})
+    p._merge_parent = same_store_base(x)
+    return p
+
+
+@memento_function(cluster="c7a", version="1")
+def merged_cross(x):
+    p = InMemoryPartition({"c": [x, "c"], "b": [x, "b-over"]})
+    p._merge_parent = base(x)
+    return p
+
+
+@memento_function(cluster="c7a", version="1")
+def unmerged_equal(x):
+    return InMemoryPartition({"a": payload(x), "b": [x, "b"], "c": [x, "c"]})
+"""
+_mp_n = [0]
+
+
+def merged_partition_scenario(root):
+    """partitions merged on top of a parent — a parent of the same store, and a parent that lives in another cluster's store
+    while the child's store already holds a value with the bytes of one of the parent's values: after every call every file
+    under c/ of both stores hashes to its name and there is one object per content key; results read back right"""
+    import linecache
+    import shutil
+    import tempfile
+    import types
+    import twosigma.memento as m
+    from twosigma.memento import Environment, ConfigurationRepository, FunctionCluster
+    from twosigma.memento.storage_filesystem import FilesystemStorageBackend
+    fails = []
+    orig = m.Environment.get()
+    d = tempfile.mkdtemp(prefix="c07m_", dir=root)
+    try:
+        stores = {c: os.path.join(d, c) for c in ("c7a", "c7b")}
+        m.Environment.set(Environment(name="c7", base_dir=d, repos=[ConfigurationRepository(name="r", clusters={
+            c: FunctionCluster(name=c, storage=FilesystemStorageBackend(path=p)) for c, p in stores.items()})]))
+        _mp_n[0] += 1
+        modname = "c07mp_%d_%d" % (os.getpid(), _mp_n[0])
+        fname = "<%s>" % modname
+        linecache.cache[fname] = (len(MERGED_SRC), None, MERGED_SRC.splitlines(True), fname)
+        mod = types.ModuleType(modname)
+        sys.modules[modname] = mod
+        exec(compile(MERGED_SRC, fname, "exec"), mod.__dict__)
+        want = {"merged_same": ["a", "b", "c"], "merged_cross": ["a", "b", "c"], "unmerged_equal": ["a", "b", "c"]}
+        for step, call in enumerate([("plain_a", 1), ("base", 1), ("merged_cross", 1), ("same_store_base", 2), ("merged_same", 2), ("unmerged_equal", 2),
+                                     ("merged_same", 2)]):        # (a child whose parent lives in another store is not read back: remark R5)
+            try:
+                v = getattr(mod, call[0])(call[1])
+                if call[0] in want:
+                    keys = sorted(v.list_keys())
+                    vals = {k: v.get(k) for k in keys}
+                    if keys != want[call[0]] or vals.get("a") != mod.payload(call[1]):
+                        fails.append(dict(clause="memento-reads-own-bytes", scenario="merged-partitions", call=list(call), keys=keys))
+            except Exception as e:
+                fails.append(dict(clause="memento-reads-own-bytes", scenario="merged-partitions", call=list(call), error=repr(e)[:200]))
+            for c, p in stores.items():
+                shim = types.SimpleNamespace(kind="fs", data_dir=p)
+                _, bad = sw.World.scan_blobs(shim)
+                for b in bad:
+                    b.update(scenario="merged-partitions", store=c, after=list(call))
+                    fails.append(b)
+            if fails:
+                break
+    finally:
+        m.Environment.set(orig)
+        shutil.rmtree(d, ignore_errors=True)
+    return fails
+
+
 def main(chk, replay=None):
+    if replay is not None and replay.get("merged"):
+        mf = merged_partition_scenario(None)
+        print(json.dumps(dict(still_fails=bool(mf), observed=mf[:3]), default=str))
+        return 1 if mf else 0
     if replay is not None:
         r = run(replay["config"], replay["ops"], use_model=False)
         print(json.dumps(dict(still_fails=bool(r["integrity"]), observed=r["integrity"][:3]), default=str))
@@ -146,6 +275,12 @@ def main(chk, replay=None):
                 chk.correspondence_break("blobs", dict(config=cfg, ops=ops[: res["mismatch"][0]["step"] + 1], first=res["mismatch"][0]))
             elif res["oracle"]:
                 chk.correspondence_break("dict-oracle (C05)", dict(config=cfg, first=res["oracle"][0]))
+    mf = merged_partition_scenario(chk.tmpdir())
+    chk.case(["merged-partitions"], nontrivial=True, sample=dict(kind="partitions merged on a parent of the same / of another store"))
+    chk.count("merged-partition-calls", 8)
+    if mf:
+        chk.violation({"what": "data area integrity (merged partitions): %s" % mf[0]["clause"], "class": {"clause": mf[0]["clause"], "scenario": "merged-partitions"},
+                       "merged": True, "observed": mf[:3]})
     for ops in CORPUS:
         go(ops, "corpus")
     for i in range(n):
